@@ -10,7 +10,7 @@
    lists, annotations carry a sofa of this CAS and offsets inside its text), ids_distinctb (sofa ids, byte-array ids and
    structure ids apart), refs_wfb (no id 0, the schema calls exactly the ArrayBase subtypes arrays, `sofa` features hold
    sofas), doc_ok_json (well-formed document). *)
-From Cassis Require Import Base Heap Schema Canon Reach JsonDoc Json JsonProofs JsonProofs2 JsonLex CorrC02.
+From Cassis Require Import Base Heap Schema Canon Reach JsonDoc Json JsonProofs JsonProofs2 JsonLoadProofs JsonLex CorrC02.
 From Cassis Require Props.C02.
 Open Scope Z_scope.
 
@@ -70,6 +70,22 @@ Print Assumptions C04_json_std_lex_ok.
 
 (* ================================================================================================ C05, JSON half *)
 
+(* the reader mechanism of cassis/json.py (sofa-first pass with the byte-array pre-fetch in both forms, second pass,
+   deferred fix-ups against the final table, initial-view rule, %VIEWS pass with add() re-pointing `sofa`) builds, from
+   every well-formed document, the CAS the document describes under the declarative reading (plus the view
+   _InitialView every CAS has, when the document does not mention it) *)
+Theorem C05_json_load_is_denotation : forall L s d cc,
+  doc_ok_json L s d = true -> denote_json L s d = Ok cc -> load_json L s d = Ok (with_initial_view cc).
+Proof. exact load_json_is_denotation. Qed.
+Print Assumptions C05_json_load_is_denotation.
+
+(* hence loading does not depend on the presentation *)
+Theorem C05_json_load_presentation_invariant : forall L s d d' cc,
+  schema_keys_okb s = true -> same_content d d' -> doc_ok_json L s d = true -> doc_ok_json L s d' = true ->
+  denote_json L s d = Ok cc -> load_json L s d' = load_json L s d.
+Proof. exact load_json_presentation_invariant. Qed.
+Print Assumptions C05_json_load_presentation_invariant.
+
 (* documents that present the same content — feature structures in any order (forward references, sofas anywhere), as an
    array or as an id-keyed object, members in any order, views in any order, members of the document in any order,
    whatever %TYPES says — describe the same CAS *)
@@ -126,8 +142,11 @@ Example PropsJson_premises_hold :
       wf_jsonb s c' = true /\ ids_distinctb s c' = true /\ refs_wfb s c' = true /\ 0 < c_next_id (c_cas Props.C02.ex_case) /\
       schema_keys_okb s = true /\
       doc_ids_distinctb d = true /\ doc_refs_resolveb d = true /\ doc_ok_json std_lex s d = true /\
+      initial_view_in c' = true /\ load_json std_lex s d = canon_json s c' /\
       match fs_entries d with
-      | Ok es => denote_json std_lex s (set_member K_FS (dict_form (rev es)) d) = denote_json std_lex s d
+      | Ok es => denote_json std_lex s (set_member K_FS (dict_form (rev es)) d) = denote_json std_lex s d /\
+                 doc_ok_json std_lex s (set_member K_FS (dict_form (rev es)) d) = true /\
+                 load_json std_lex s (set_member K_FS (dict_form (rev es)) d) = canon_json s c'
       | _ => False end
   | _ => False
   end.
